@@ -118,6 +118,12 @@ func builtinDateSetTime(call FunctionCall) Value {
 }
 
 func builtinDateBeforeSet(call FunctionCall, argumentLimit int, timeLocal bool) (*object, *dateObject, *ecmaTime, []int) {
+	return builtinDateBeforeSetFrom(call, argumentLimit, timeLocal, false)
+}
+
+// builtinDateBeforeSetFrom is builtinDateBeforeSet; with nanAsZero an invalid
+// date is taken to be time value +0 (setFullYear and setUTCFullYear).
+func builtinDateBeforeSetFrom(call FunctionCall, argumentLimit int, timeLocal, nanAsZero bool) (*object, *dateObject, *ecmaTime, []int) {
 	obj := call.thisObject()
 	date := dateObjectOf(call.runtime, call.thisObject())
 
@@ -141,7 +147,17 @@ func builtinDateBeforeSet(call FunctionCall, argumentLimit int, timeLocal bool) 
 	}
 
 	if date.isNaN {
-		return nil, nil, nil, nil
+		if !nanAsZero {
+			return nil, nil, nil, nil
+		}
+		// 15.9.5.40-41 step 1: if this time value is NaN, let t be +0
+		// (in local time for setFullYear).
+		date = dateObject{}
+		if timeLocal {
+			date.SetTime(time.Date(1970, 1, 1, 0, 0, 0, 0, time.Local)) //nolint:gosmopolitan
+		} else {
+			date.Set(0)
+		}
 	}
 
 	if !valid {
@@ -584,14 +600,7 @@ func builtinDateSetYear(call FunctionCall) Value {
 }
 
 func builtinDateSetFullYear(call FunctionCall) Value {
-	// 15.9.5.40 step 1: if this time value is NaN, let t be +0 (in local time).
-	if this := call.thisObject(); dateObjectOf(call.runtime, this).isNaN {
-		zero := dateObject{}
-		zero.SetTime(time.Date(1970, 1, 1, 0, 0, 0, 0, time.Local)) //nolint:gosmopolitan
-		this.value = zero
-	}
-
-	obj, date, ecmaTime, value := builtinDateBeforeSet(call, 3, true)
+	obj, date, ecmaTime, value := builtinDateBeforeSetFrom(call, 3, true, true)
 	if ecmaTime == nil {
 		return NaNValue()
 	}
@@ -610,14 +619,7 @@ func builtinDateSetFullYear(call FunctionCall) Value {
 }
 
 func builtinDateSetUTCFullYear(call FunctionCall) Value {
-	// 15.9.5.41 step 1: if this time value is NaN, let t be +0.
-	if this := call.thisObject(); dateObjectOf(call.runtime, this).isNaN {
-		zero := dateObject{}
-		zero.Set(0)
-		this.value = zero
-	}
-
-	obj, date, ecmaTime, value := builtinDateBeforeSet(call, 3, false)
+	obj, date, ecmaTime, value := builtinDateBeforeSetFrom(call, 3, false, true)
 	if ecmaTime == nil {
 		return NaNValue()
 	}
